@@ -335,7 +335,8 @@ CHECKS["C13"] = NS(
         "a forward of another model or a new module. Distinct by the sequence of (op, exception kind, position, model, function)."
     ),
     ASSUMPTIONS=["an exception is caught right outside the innermost with block (the other contexts of a nest are then left normally)", "single-threaded: no schedule dimension"],
-    PLAN={"quick": [("faults", 8, {"maxn": 3}), ("machine", 8, {"n": 150, "steps": 12})], "thorough": [("faults", 8, {"maxn": 5}), ("machine", 8, {"n": 3000, "steps": 20})]},
+    PLAN={"quick": [("faults", 6, {"maxn": 3}), ("machine", 6, {"n": 200, "steps": 12}), ("purity", 4, {"n": 600})],
+          "thorough": [("faults", 8, {"maxn": 5}), ("machine", 8, {"n": 3000, "steps": 20}), ("purity", 8, {"n": 15000})]},
 )
 
 CHECKS["C09"] = NS(
